@@ -10,6 +10,7 @@
 #include <amgcl/adapter/crs_tuple.hpp>
 #include <amgcl/preconditioner/cpr.hpp>
 #include <amgcl/preconditioner/cpr_drs.hpp>
+#include "forkrun.hpp"
 
 using namespace c18;
 
@@ -317,6 +318,32 @@ static void drs_case(int nb, uint64_t graph, int fill, int active_cells, const s
             Cb.apply(rb, xb); std::vector<Q> g(n); for (int i = 0; i < nb; ++i) for (int b = 0; b < B; ++b) g[i * B + b] = Q(xb[i](b)); return g; });
     }
     if (!same(Fs, Fb)) vf::fail("cpr_drs.scalar_vs_block.Fpp", key, ctx + " : scalar " + show(Fs) + " block " + show(Fb)); else vf::count("cpr_drs_scalar_vs_block_Fpp_identical");
+    // partial update of cpr_drs with the unchanged matrix (both settings of update_transfer_ops, scalar and block valued
+    // input): the action is unchanged bit for bit and a recomputed Fpp equals the constructed one.  The call is probed
+    // in a forked child first, so that a crash inside partial_update is an outcome of this case, not the end of the shard.
+    for (int upd = 0; upd < 2; ++upd) {
+        fr::Result pr = fr::run([&](fr::Out &out) { DrsS C2(*A, ps); C2.partial_update(*A, (bool)upd); amgcl::backend::numa_vector<double> rhs(rhs_vec(n, n)), x(n); C2.apply(rhs, x); out << "ok"; }, 60.0);
+        if (pr.kind != fr::OK) { vf::fail("cpr_drs.scalar.partial_update.crash", key, ctx + (vf::KS() << " update_transfer_ops=" << upd << " : partial_update(K) of a cpr_drs built from scalar input ended with " << (pr.kind == fr::SIGNAL ? "signal " : (pr.kind == fr::EXC ? "exception " : "outcome ")) << (pr.kind == fr::EXC ? pr.text : std::to_string(pr.code))).str()); continue; }
+        DrsS C2(*A, ps);
+        std::vector<std::vector<double>> before;
+        for (int t = 0; t <= n; ++t) { amgcl::backend::numa_vector<double> rhs(rhs_vec(n, t)), x(n); C2.apply(rhs, x); before.push_back(std::vector<double>(&x[0], &x[0] + n)); }
+        C2.partial_update(*A, (bool)upd);
+        if (!same(qd(*C2.Fpp, n), Fs)) vf::fail("cpr_drs.scalar.partial_update.Fpp", key, ctx + (vf::KS() << " update_transfer_ops=" << upd << " : Fpp after the update " << show(qd(*C2.Fpp, n)) << " constructed " << show(Fs)).str());
+        bool same_action = true;
+        for (int t = 0; t <= n; ++t) { amgcl::backend::numa_vector<double> rhs(rhs_vec(n, t)), x(n); C2.apply(rhs, x); if (std::memcmp(&x[0], before[t].data(), n * sizeof(double))) same_action = false; }
+        if (!same_action) vf::fail("cpr_drs.scalar.partial_update.same_matrix", key, ctx + (vf::KS() << " update_transfer_ops=" << upd << " : action changed").str()); else vf::count("cpr_drs_scalar_partial_update_same_matrix_checked");
+    }
+    for (int upd = 0; upd < 2; ++upd) {
+        fr::Result pr = fr::run([&](fr::Out &out) { DrsB C2(*Ab, pb); C2.partial_update(*Ab, (bool)upd); out << "ok"; }, 60.0);
+        if (pr.kind != fr::OK) { vf::fail("cpr_drs.block.partial_update.crash", key, ctx + (vf::KS() << " update_transfer_ops=" << upd << " : outcome " << (int)pr.kind << " code " << pr.code << " " << pr.text).str()); continue; }
+        DrsB C2(*Ab, pb);
+        std::vector<double> f = rhs_vec(n, n);
+        amgcl::backend::numa_vector<typename BT::BR> rb(nb), x1(nb), x2(nb);
+        for (int i = 0; i < nb; ++i) for (int b = 0; b < B; ++b) rb[i](b) = f[i * B + b];
+        C2.apply(rb, x1); C2.partial_update(*Ab, (bool)upd); C2.apply(rb, x2);
+        if (!same(qd(*C2.Fpp, n), Fb)) vf::fail("cpr_drs.block.partial_update.Fpp", key, ctx + (vf::KS() << " update_transfer_ops=" << upd).str());
+        if (std::memcmp(&x1[0], &x2[0], nb * sizeof(typename BT::BR))) vf::fail("cpr_drs.block.partial_update.same_matrix", key, ctx + (vf::KS() << " update_transfer_ops=" << upd << " : action changed").str()); else vf::count("cpr_drs_block_partial_update_same_matrix_checked");
+    }
     vf::nontrivial(vf::hstr(key));
 }
 
